@@ -88,6 +88,11 @@ fn gen02(t: &mut Tape, tier: Tier) -> Scenario {
     sc.set_b("expect", b.expect);
     sc.set_l("src_script", gen::draw_script(t));
     sc.set_l("sink_script", gen::draw_script(t));
+    if ep == EP_RAW_LZMA2 && t.below(3) == 0 {
+        // the decoder object was used before: a call that failed half-way, no reset()
+        sc.set_i("raw_pre", t.below(6));
+        sc.note.push_str("; decoder object reused after a failed call without reset()");
+    }
     sc
 }
 
@@ -108,10 +113,16 @@ fn run_exact(sc: &Scenario, ctx: &mut Ctx, class_reject: &str) -> Vec<Violation>
         0,
         &mut sink,
         &OptSpec::default(),
-        &RawSpec::default(),
+        &RawSpec {
+            pre: sc.opt_i("raw_pre"),
+            ..Default::default()
+        },
         0,
         0,
     );
+    if sc.opt_i("raw_pre").is_some() {
+        ctx.stats.hit("arm.raw_decoder_object_reused_after_a_failed_call_without_reset");
+    }
     let s = st.borrow();
     ctx.stats.eval(sc.hash() ^ ro.log, !sc.b("expect").is_empty(), ro.calls + s.writes + s.flushes);
     if let Verdict::Panic(p) = &v {
@@ -180,7 +191,7 @@ fn exec02(sc: &Scenario, ctx: &mut Ctx) -> Vec<Violation> {
 pub static C02: SimpleProp = SimpleProp {
     id: "C02",
     level: "exploration",
-    rule: "one evaluation = one decode of a reference-built LZMA2 stream (0-9 chunks, now and then 100-300 tiny ones: uncompressed with/without dictionary reset, LZMA with reset class none/state/state+props/all, property changes with lc+lp<=4, matches reaching into earlier chunks, 1-byte chunks, 64 KiB uncompressed, >1 MB unpacked; only sequences xz and the LZMA SDK accept) through lzma2_decompress, raw::Lzma2Decoder or wrapped in .xz, with benign short reads/writes; output compared online with the LZ model; non-trivial = non-empty output; distinct by (scenario, event log) hash",
+    rule: "one evaluation = one decode of a reference-built LZMA2 stream (0-9 chunks, now and then 100-300 tiny ones: uncompressed with/without dictionary reset, LZMA with reset class none/state/state+props/all, property changes with lc+lp<=4, matches reaching into earlier chunks, 1-byte chunks, 64 KiB uncompressed, >1 MB unpacked; only sequences xz and the LZMA SDK accept) through lzma2_decompress, raw::Lzma2Decoder (a third of them on a decoder object whose previous call failed half-way - truncated input, reserved control byte, failing sink - with no reset() in between) or wrapped in .xz, with benign short reads/writes; output compared online with the LZ model; non-trivial = non-empty output; distinct by (scenario, event log) hash",
     runs_quick: 150_000,
     runs_thorough: 12_000_000,
     both_profiles: false,
